@@ -168,11 +168,35 @@ func checkC02(c c02Case) verdict {
 	if !okk || verr != nil {
 		return bad(nt, labels, "ValidateTOTP rejects the code GenerateTOTP returned for the same instant and parameters (period=%d nil=%v): %v, %v", period, c.NilParam, okk, verr)
 	}
+	// ... also for the window: with explicit parameters and an admissible window s the codes of the steps n-s..n+s
+	// (and no other step's code) validate, where the step length is the resolved period — a zero period shifts the
+	// window by 30 s per step exactly as an explicit 30 does
+	// (instants whose whole window lies at or after step 0: C04's domain)
+	if !c.NilParam && c.Skew >= 1 && c.Skew <= 10 && n >= c.Skew {
+		inWin := map[string]bool{}
+		for j := -int64(c.Skew); j <= int64(c.Skew); j++ {
+			if m := int64(n) + j; m >= 0 {
+				inWin[ref.MustHOTP(c.Key, uint64(m), digits, algo)] = true
+			}
+		}
+		labels = append(labels, "window-neighbours")
+		for _, d := range []int64{-1, 1, -int64(c.Skew), int64(c.Skew), -int64(c.Skew) - 1, int64(c.Skew) + 1} {
+			m := int64(n) + d
+			if m < 0 || uint64(m) > (uint64(1)<<62)/eff {
+				continue
+			}
+			code := ref.MustHOTP(c.Key, uint64(m), digits, algo)
+			okk, verr := otp.ValidateTOTP(secret, code, t, param)
+			if okk != inWin[code] || (okk && verr != nil) || (!okk && verr == nil) {
+				return bad(true, labels, "ValidateTOTP(code of step n%+d, period=%d [resolved %d], skew=%d) = %v, %v; the window n-%d..n+%d contains it: %v", d, period, eff, c.Skew, okk, verr, c.Skew, c.Skew, inWin[code])
+			}
+		}
+	}
 	return ok(nt, labels...)
 }
 
 var c02Main = newPart("C02", "main",
-	"rapid: unix seconds in [0,2^62) centred on step boundaries (n*p + {-2..2}), small, ~now, huge x nanoseconds x 8 locations (UTC, Local, fixed offsets, three DST-observing zones incl. instants within an hour of a clock change) x monotonic reading x period {0,1,2,29,30,31,59,60,3600,2^31,2^32-1,2^32,uniform} x secrets/digits/hashes of C01 x nil/explicit param; oracle: reference HOTP at floor(unix/p') for the instant, the first and last second of its step and the neighbouring seconds of both adjacent steps; ValidateTOTP must accept the generated code with the same parameters; non-trivial = within 2 s of a boundary or period != 30 or nsec != 0 or zone != UTC or monotonic or period > t",
+	"rapid: unix seconds in [0,2^62) centred on step boundaries (n*p + {-2..2}), small, ~now, huge x nanoseconds x 8 locations (UTC, Local, fixed offsets, three DST-observing zones incl. instants within an hour of a clock change) x monotonic reading x period {0,1,2,29,30,31,59,60,3600,2^31,2^32-1,2^32,uniform} x secrets/digits/hashes of C01 x nil/explicit param; oracle: reference HOTP at floor(unix/p') for the instant, the first and last second of its step and the neighbouring seconds of both adjacent steps; ValidateTOTP must accept the generated code with the same parameters and, under an explicit window s, exactly the codes of steps n-s..n+s of the resolved period (probes at distance 1, s, s+1 both ways); non-trivial = within 2 s of a boundary or period != 30 or nsec != 0 or zone != UTC or monotonic or period > t",
 	checkC02)
 
 var c02Periods = []uint64{0, 0, 1, 2, 29, 30, 30, 31, 59, 60, 3600, 86400, 1 << 31, 1<<32 - 1, 1 << 32}
